@@ -94,7 +94,14 @@ def Heap.alloc (h : Heap) (c : Cls) (frm : Option (Option ExcId)) : Heap × ExcI
      suppress := fun i => if i = h.next then frm.isSome else h.suppress i,
      next := h.next + 1 }, h.next)
 
-inductive PathKind | absent | file | dir
+/-- what a symbolic link points at -/
+inductive LinkTarget | file | dir | missing | loop
+  deriving DecidableEq, Repr
+
+/-- what the protected path is, in the `lstat` sense (a dangling link *is* there) -/
+inductive PathKind
+  | absent | file | dir
+  | link (t : LinkTarget)
   deriving DecidableEq, Repr
 
 /-- one `logger.error('Original exception being dropped: %s', format_exception(type_, value, tb))` -/
@@ -321,20 +328,32 @@ inductive RemoveFn
   | default                 -- fileutils.delete_if_exists
   | noop                    -- a user function that returns
   | raises (e : ExcId)      -- a user function that raises
+  | wrapped                 -- a user function that calls fileutils.delete_if_exists(path)
   deriving DecidableEq, Repr
+
+/-- `delete_if_exists(path)` (fileutils.py:60-64) with the default `os.unlink` (modelled, not verified:
+    unlink removes the directory entry itself - a regular file or a symbolic link whatever it points at,
+    dangling and looping links included -, fails with ENOENT on a missing entry and with EISDIR/EPERM on
+    a directory) -/
+def deleteIfExists (s : St) : St × Compl :=
+  match s.path with
+  | .absent => (s, .ok)                              -- ENOENT is swallowed
+  | .file => ({ s with path := .absent }, .ok)
+  | .link _ => ({ s with path := .absent }, .ok)
+  | .dir =>                                          -- re-raised by the bare `raise`
+    let (s1, o) := s.raiseFresh .osError none .delete
+    (s1, .raised o)
 
 /-- `remove(path)` called from the generator frame -/
 def callRemove (rm : RemoveFn) (s : St) : St × Compl :=
   match rm with
-  | .default =>                                      -- fileutils.py:60-64
-    match s.path with
-    | .absent => (s, .ok)                            -- ENOENT is swallowed
-    | .file => ({ s with path := .absent }, .ok)
-    | .dir =>                                        -- EISDIR: re-raised by the bare `raise`
-      let (s1, o) := s.raiseFresh .osError none .delete
-      (s1, .raised o)
+  | .default => deleteIfExists s
   | .noop => (s, .ok)
   | .raises e => (s.through e .removeFn, .raised e)
+  | .wrapped =>
+    match deleteIfExists s with
+    | (s1, .raised o) => (s1.through o .removeFn, .raised o)
+    | r => r
 
 /-- tail of `_GeneratorContextManager.__exit__`: `x` came out of `gen.throw(value)` -/
 def cmExit (value : ExcId) (tbAtWith : Tb) (x : ExcId) (s : St) : St × Compl :=
